@@ -111,6 +111,9 @@ fn menu(func: u8) -> Vec<Hdr> {
                 v.extend_from_slice(&app::time48(2000));
                 v
             }),
+            h("g34v3-deadband", Accept, app::prefixed8(34, 3, &[(1, 1.5f32.to_le_bytes().to_vec())])),
+            h("g34v3-negative-deadband", Reject, app::prefixed8(34, 3, &[(1, (-1.0f32).to_le_bytes().to_vec())])),
+            h("g34v3-nan-deadband", Reject, app::prefixed8(34, 3, &[(1, f32::NAN.to_le_bytes().to_vec())])),
             h("g34v1-deadband", Accept, app::prefixed8(34, 1, &[(1, vec![5, 0])])),
             h("set-restart", Reject, app::write_restart_objects(true)),
             h("g80v1-index4", Reject, vec![80, 1, 0x00, 4, 4, 0]),
